@@ -13,7 +13,7 @@ seed / container order / history), shrunk, and reported with the two configurati
 diff excerpt.  The programs exercise: user right-hand sides and a two-result user function, a user
 function whose template declares temporaries, keyword-argument calls, the built-ins with Fortran
 templates of their own (array, matmul, transpose, linear_solve, svd, print) and the computed ones
-(norm_2, len, isnan, elementwise_abs), looping assignments with several distinct counters,
+(norm_2, len, isnan, elementwise_abs), looping assignments with several distinct counters, identifiers of 35-80 characters,
 if/else, switch/restart/fail/raise, several phases/components/time ids, and the generator's options
 (instrumentation on/off, trace, state update hooks, extra arguments, preambles, flat and nested
 user types with a structure and a pointer member).
@@ -154,6 +154,12 @@ S_CODE = """
     """
 NOTE_CODE = "\n    write(*,*) 'state update ${tag}'\n    "
 
+# long identifiers (35-70 characters; pairs sharing a prefix of 46+ characters): a name mapping
+# that cuts or digests names must still be a function of the name alone
+LONG_STATE = "<state>concentrations_of_all_species_in_the_reaction_network_at_the_current_time"
+LONG_F1 = "<func>evaluate_the_production_rates_of_all_species_of_the_reaction_network"
+LONG_F2 = "<func>evaluate_the_production_rates_of_all_species_of_the_reaction_network_damped"
+
 _REGISTRY = []
 
 
@@ -173,6 +179,9 @@ def registry():
     freg = register_function(freg, "<func>g", ("a", "b"), result_names=("r1", "r2"),
                              result_kinds=(UserType("y"), UserType("y")))
     freg = freg.register_codegen("<func>g", "fortran", f.CallCode(G_CODE))
+    for fid in (LONG_F1, LONG_F2):
+        freg = register_ode_rhs(freg, "y", identifier=fid, input_names=("y",))
+        freg = freg.register_codegen(fid, "fortran", f.CallCode(F_CODE))
     freg = register_function(freg, "<func>s", ("a",), result_names=("result",), result_kinds=(UserType("y"),))
     freg = freg.register_codegen("<func>s", "fortran", f.CallCode(S_CODE))
     for tag in ("before", "after"):
@@ -248,10 +257,13 @@ def interpreter_events(code, steps):
     import numpy as np
     from dagrt.exec_numpy import NumpyInterpreter
     fmap = {"<func>f": lambda t, y: y + 1, "<func>g": lambda a, b: (a + b, a - b),
-            "<func>h": lambda t, z: z + 2, "<func>s": lambda a: 2 * a + 1}
+            "<func>h": lambda t, z: z + 2, "<func>s": lambda a: 2 * a + 1,
+            LONG_F1: lambda t, y: y + 3, LONG_F2: lambda t, y: 2 * y}
     interp = NumpyInterpreter(code, function_map=fmap)
     interp.set_up(t_start=0, dt_start=1, context={"y": np.array([1, 2, 3, 4, 5], dtype=np.int64),
-                                                     "z": np.array([7, 8, 9], dtype=np.int64)})
+                                                     "z": np.array([7, 8, 9], dtype=np.int64),
+                                                     LONG_STATE[len("<state>"):]: np.array([2, 4, 6, 8, 10],
+                                                                                           dtype=np.int64)})
     out = []
     try:
         for ev in interp.run(max_steps=steps):
@@ -544,6 +556,57 @@ HAND_PROGRAMS = [
             ["asg", "<state>y", "p + <state>y"],
             ["yield", "<state>z", "z", "<t>", "tz"],
             ["yield", "<state>y", "y", "<t> + <dt>", "ty"]]}]},
+    # long identifiers everywhere a name is made: scalar and user-type locals (pairs sharing a 46+
+    # character prefix), <p> and <state> variables, function ids, loop counters, phase names, a time id
+    {"name": "long_names", "initial": "first_half_of_the_step_with_the_explicit_predictor_stage", "steps": 3,
+     "phases": [
+        {"name": "first_half_of_the_step_with_the_explicit_predictor_stage",
+         "next": "first_half_of_the_step_with_the_explicit_predictor_stage_redone", "ops": [
+            ["asg", "production_rates_of_all_species_in_the_reaction_network_stage_one",
+             LONG_F1 + "(<t>, " + LONG_STATE + ")"],
+            ["asg", "production_rates_of_all_species_in_the_reaction_network_stage_two",
+             LONG_F2 + "(<t>, production_rates_of_all_species_in_the_reaction_network_stage_one)"],
+            ["asg", "number_of_accepted_steps_since_the_last_change_of_the_order", "2"],
+            ["asg", "number_of_accepted_steps_since_the_last_change_of_the_order_plus_one",
+             "number_of_accepted_steps_since_the_last_change_of_the_order + 1"],
+            ["asg", "<p>previous_right_hand_side_evaluation_kept_for_the_next_time_step",
+             "production_rates_of_all_species_in_the_reaction_network_stage_two"],
+            ["asg", "<p>norm_of_the_previous_right_hand_side_evaluation_kept_for_the_next_time_step",
+             "`<builtin>norm_2`(production_rates_of_all_species_in_the_reaction_network_stage_one)"],
+            ["asg", ["production_rates_of_all_species_in_the_reaction_network_stage_one",
+                     "production_rates_of_all_species_in_the_reaction_network_stage_two"],
+             "<func>g(production_rates_of_all_species_in_the_reaction_network_stage_one, "
+             "production_rates_of_all_species_in_the_reaction_network_stage_two)"],
+            ["asg", LONG_STATE,
+             LONG_STATE + " + number_of_accepted_steps_since_the_last_change_of_the_order_plus_one"
+             "*production_rates_of_all_species_in_the_reaction_network_stage_one"
+             " + production_rates_of_all_species_in_the_reaction_network_stage_two"],
+            ["yield", LONG_STATE, "y", "<t>", "the_final_time_of_the_step_after_all_stages_have_been_accepted"]]},
+        {"name": "first_half_of_the_step_with_the_explicit_predictor_stage_redone",
+         "next": "first_half_of_the_step_with_the_explicit_predictor_stage", "ops": [
+            ["asg", "size_of_the_coefficient_matrix_of_the_linear_system", "2"],
+            ["asg", "coefficient_matrix_of_the_linear_system_of_the_implicit_stage",
+             "`<builtin>array`(size_of_the_coefficient_matrix_of_the_linear_system"
+             "*size_of_the_coefficient_matrix_of_the_linear_system)"],
+            ["loop", "coefficient_matrix_of_the_linear_system_of_the_implicit_stage["
+                     "index_into_the_coefficient_matrix_of_the_linear_system_row"
+                     "*size_of_the_coefficient_matrix_of_the_linear_system"
+                     " + index_into_the_coefficient_matrix_of_the_linear_system_col]",
+             "1 + index_into_the_coefficient_matrix_of_the_linear_system_row"
+             " + 3*index_into_the_coefficient_matrix_of_the_linear_system_col",
+             [["index_into_the_coefficient_matrix_of_the_linear_system_row", "0",
+               "size_of_the_coefficient_matrix_of_the_linear_system"],
+              ["index_into_the_coefficient_matrix_of_the_linear_system_col", "0",
+               "size_of_the_coefficient_matrix_of_the_linear_system"]]],
+            ["asg", "square_of_the_coefficient_matrix_of_the_linear_system_of_the_implicit_stage",
+             "`<builtin>matmul`(coefficient_matrix_of_the_linear_system_of_the_implicit_stage, "
+             "coefficient_matrix_of_the_linear_system_of_the_implicit_stage, "
+             "size_of_the_coefficient_matrix_of_the_linear_system, "
+             "size_of_the_coefficient_matrix_of_the_linear_system)"],
+            ["asg", LONG_STATE,
+             "square_of_the_coefficient_matrix_of_the_linear_system_of_the_implicit_stage[3]*" + LONG_STATE
+             + " + <p>previous_right_hand_side_evaluation_kept_for_the_next_time_step"],
+            ["asg", "<t>", "<t> + <dt>"]]}]},
     {"name": "nested_user_types", "initial": "main", "steps": 2, "fopts": {"types": "nested", "trace": True},
      "phases": [
         {"name": "main", "next": "fin", "ops": [
@@ -595,6 +658,48 @@ def array_section(arng, defined_s):
         ops.append(["asg", [], "`<builtin>print`(am)"])
     ops.append(["asg", "asn", "`<builtin>norm_2`(%s)" % res])
     return ops, "asn"
+
+
+LONG_NAMES = {
+    # short name of random_program / array_section -> long name (35-70 characters); ua/ub, sa/sb,
+    # am/av and the loop counters share prefixes of 46+ characters
+    "ua": "intermediate_stage_value_of_the_solution_vector_number_one",
+    "ub": "intermediate_stage_value_of_the_solution_vector_number_two",
+    "uc": "right_hand_side_evaluated_at_the_predicted_state",
+    "ud": "accumulated_increment_of_all_stages_computed_so_far_in_this_step",
+    "sa": "weight_of_the_stage_in_the_final_linear_combination_first",
+    "sb": "weight_of_the_stage_in_the_final_linear_combination_second",
+    "sc": "safety_factor_of_the_step_size_controller",
+    "an": "number_of_rows_and_columns_of_the_small_dense_matrix",
+    "am": "entries_of_the_small_dense_matrix_stored_row_by_row_matrix",
+    "av": "entries_of_the_small_dense_matrix_stored_row_by_row_vector",
+    "ar": "result_of_the_linear_algebra_operation_on_the_small_matrix",
+    "au": "left_singular_vectors_of_the_small_dense_matrix",
+    "asig": "singular_values_of_the_small_dense_matrix_in_descending_order",
+    "avt": "right_singular_vectors_of_the_small_dense_matrix_transposed",
+    "asn": "euclidean_norm_of_the_result_of_the_linear_algebra_operation",
+}
+LONG_NAMES.update({l: "loop_index_over_the_entries_of_the_small_dense_matrix_" + l for l in
+                   ["i", "j", "k", "row", "col", "ii", "m1"]})
+
+
+def lengthen(prog):
+    """the same program with long identifiers: every short variable / counter name of
+    random_program is replaced as a whole word in every string of the ops"""
+    import re
+    pat = re.compile(r"(?<![\w<>])(%s)(?![\w>])" % "|".join(sorted(LONG_NAMES, key=len, reverse=True)))
+
+    def go(x):
+        if isinstance(x, str):
+            return pat.sub(lambda m: LONG_NAMES[m.group(1)], x)
+        if isinstance(x, list):
+            return [go(y) for y in x]
+        return x
+    q = json.loads(json.dumps(prog))
+    for ph in q["phases"]:
+        ph["ops"] = [[op[0]] + go(op[1:]) for op in ph["ops"]]
+    q["name"] = prog["name"] + "_long"
+    return q
 
 
 def random_program(rng, idx):
@@ -1386,7 +1491,8 @@ def gen_programs(tier, seed):
     rng = random.Random(seed * 7919 + 15)
     nrand = 24 if tier == "quick" else 120
     for i in range(nrand):
-        progs.append(random_program(rng, i))
+        p = random_program(rng, i)
+        progs.append(lengthen(p) if i % 4 == 3 else p)      # every fourth one with long identifiers
     seen, out = set(), []
     for p in progs:
         key = json.dumps([p["phases"], p.get("fopts")], sort_keys=True)
